@@ -1077,11 +1077,11 @@ def run(R, escalate=False):
                 r = rng.random()
                 if r < 0.80:
                     run_case(env, drv, scen, gen_case(rng, scen, wide=thorough or i % 3 == 0), where="random")
-                elif r < 0.86:                    # the known-finding classes, one at a time
+                elif r < 0.86:                    # the input classes of the repaired findings
                     c = gen_case(rng, scen, mode="ucsend")
                     c["route"], c["hops"] = rng.choice([["false"], ["empty"], ["bytes", ""]]), None
                     c["inject"] = None
-                    run_case(env, drv, scen, c, where="known-classes")
+                    run_case(env, drv, scen, c, where="repaired-classes")
                 else:
                     run_case(env, drv, scen, gen_malformed(rng, scen), where="malformed")
             try:
